@@ -13,6 +13,7 @@ from a copy of the raw image.
 -/
 import GoNfsd.Lemmas.Codec
 import GoNfsd.Model.Txn
+import GoNfsd.Lemmas.AllocTxn
 
 namespace GoNfsd.Props.C10
 open GoNfsd.Model.Codec GoNfsd.Gen.Consts
@@ -198,5 +199,72 @@ example : GoNfsd.Model.Txn.Quiescent
     (GoNfsd.Model.Txn.run (GoNfsd.Model.Txn.fresh (fun _ => (0:Nat)))
       [.load 3, .modify 3 (· + 1), .evict 3, .commit, .load 4, .modify 4 (· + 7), .abort]) := by
   constructor <;> simp [GoNfsd.Model.Txn.run, GoNfsd.Model.Txn.step, GoNfsd.Model.Txn.fresh]
+
+/-! ### the allocators and the bitmaps (model M8b of `alloctxn`) -/
+
+section alloctxn
+open GoNfsd.Model.AllocTxn
+
+/-- THE IN-MEMORY ALLOCATORS EQUAL THE ON-DISK BITMAPS WHENEVER NO TRANSACTION IS OPEN — after
+    any interleaving of allocations, frees, commits and aborts of any number of concurrent
+    transactions (a number allocated and freed by the same transaction included), provided the
+    allocator hands out only numbers it holds free and a transaction frees only numbers in use
+    that no other open transaction touches.  So a server restarted from the disk (which rebuilds
+    the allocators from the bitmaps) has the allocators the running server had. -/
+theorem allocators_agree_with_bitmaps_at_quiescence (disk : Nat → Bool) (ops : List AOp)
+    (ha : AllowedAll (fresh disk) ops) (hq : Quiescent (GoNfsd.Model.AllocTxn.run (fresh disk) ops)) (n : Nat) :
+    (GoNfsd.Model.AllocTxn.run (fresh disk) ops).mem n = (GoNfsd.Model.AllocTxn.run (fresh disk) ops).disk n := by
+  have h := (run_inv _ ops (fresh_inv disk) ha).mem_iff n
+  have hnone : ¬ ∃ t, n ∈ ((GoNfsd.Model.AllocTxn.run (fresh disk) ops).tx t).1 := by
+    rintro ⟨t, ht⟩; rw [hq t] at ht; cases ht
+  cases hm : (GoNfsd.Model.AllocTxn.run (fresh disk) ops).mem n <;>
+    cases hd : (GoNfsd.Model.AllocTxn.run (fresh disk) ops).disk n
+  · rfl
+  · exact absurd (h.2 (Or.inl hd)) (by rw [hm]; simp)
+  · rcases h.1 hm with h' | h'
+    · rw [hd] at h'; cases h'
+    · exact absurd h' hnone
+  · rfl
+
+/-- … and while transactions are open: the allocator holds exactly the numbers in use on disk
+    plus those handed to an open transaction (a number being freed stays unavailable until the
+    commit), and no number is in the hands of two transactions. -/
+theorem allocator_is_disk_plus_open_allocations (disk : Nat → Bool) (ops : List AOp)
+    (ha : AllowedAll (fresh disk) ops) :
+    Inv (GoNfsd.Model.AllocTxn.run (fresh disk) ops) :=
+  run_inv _ ops (fresh_inv disk) ha
+
+/-- An abort gives back exactly what the transaction had taken: its numbers are free again in
+    memory, the disk is untouched (and was never touched on their account). -/
+theorem abort_returns_the_allocations (s : St) (t n : Nat) (h : Inv s) (hn : n ∈ (s.tx t).1) :
+    (step s (.abort t)).mem n = false ∧ (step s (.abort t)).disk = s.disk ∧ s.disk n = false := by
+  refine ⟨?_, rfl, (h.alloc_fresh t n hn).1⟩
+  simp only [step, Bool.and_eq_false_iff, Bool.not_eq_false', List.contains_eq_mem, decide_eq_true_eq]
+  exact Or.inr hn
+
+/-- Non-vacuity: two interleaved transactions — one allocates 5, frees it again and commits, the
+    other allocates 6, frees the in-use number 2 and aborts — are allowed at every step and end
+    quiescent. -/
+example :
+    let disk : Nat → Bool := fun n => decide (n = 0 ∨ n = 2)
+    let ops : List AOp := [.alloc 0 5, .alloc 1 6, .free 1 2, .free 0 5, .commit 0, .abort 1]
+    AllowedAll (fresh disk) ops ∧ Quiescent (GoNfsd.Model.AllocTxn.run (fresh disk) ops) := by
+  intro disk ops
+  refine ⟨⟨?_, ?_, ?_, ?_, trivial, trivial, trivial⟩, ?_⟩
+  · simp [Allowed, fresh, disk]
+  · simp [Allowed, step, fresh, disk]
+  · refine ⟨by simp [step, fresh, disk], ?_⟩
+    intro u hu
+    simp only [step, fresh, setTx, hu, if_false]
+    by_cases h0 : u = 0 <;> simp [h0]
+  · refine ⟨by simp [step, fresh, disk], ?_⟩
+    intro u hu
+    simp only [step, fresh, setTx, hu, if_false]
+    by_cases h1 : u = 1 <;> simp [h1]
+  · intro t
+    simp only [ops, GoNfsd.Model.AllocTxn.run, step, fresh, setTx]
+    by_cases h0 : t = 0 <;> by_cases h1 : t = 1 <;> simp [h0, h1]
+
+end alloctxn
 
 end GoNfsd.Props.C10
